@@ -111,7 +111,10 @@ func (r *weightsRunner) execute(cmd *cobra.Command, args []string) error {
 	if err != nil {
 		return err
 	}
-	partition := r.Multiperiod.Partition(j.Period())
+	partition, err := r.Multiperiod.Partition(j.Period())
+	if err != nil {
+		return err
+	}
 	calculator := &performance.Calculator{
 		Context:         reg,
 		Valuation:       valuation,
